@@ -26,6 +26,9 @@ CLAIMED["C06"] = ("proof", CLAIMED["C12"][1],
 CLAIMED["C04"] = ("proof", CLAIMED["C12"][1],
     "contracts on the real bodies of _determine_license_path, Project.reuse_info_of (against a specification written from the statement, pointwise for an arbitrary value/source/source-type triple), ReuseTOML.find_annotations_item (last match), ReuseTOML.reuse_info_of and NestedReuseTOML.reuse_info_of (exception freedom, nearest-provider clean-up with step lemmas)",
     "assumes reuse_info_of_file (C02), the REUSE.toml finder's ordering, pathlib relations; the walk loop's list contents and ReuseDep5.reuse_info_of are not under contract", "4.4")
+CLAIMED["C13"] = ("proof", CLAIMED["C12"][1] + "; bounded enumeration of synthetic reports through the real formatters",
+    "contracts on the real bodies behind the exit statuses (is_compliant, the lint callback on all four output branches, ProjectSubsetReport.generate / is_compliant / files_without_*, the lint-file callback: exit 1 iff a line is printed); the agreement of the rendered texts and the JSON counters is exercised by a bounded enumeration (labelled bounded)",
+    "formatter loops are not under contract (bounded check only); json.dumps / click.echo assumed", "4.13")
 NOT_YET = "check not built yet in this session (work in progress; see DESIGN.md section 4 for the planned contracts)"
 props = [json.loads(l) for l in open(os.path.join(V, "properties.jsonl"))]
 checks, na = [], []
